@@ -1397,6 +1397,13 @@ impl<'a> TypedArrayAccessor<'a> {
                 }
             }
             TypedArrayAccessor::Other(arr) => {
+                // NULL is u64::MAX here as in every other arm: the all-NULL-key
+                // test in get_or_assign_perfect_index relies on it, and a
+                // BOOLEAN key column (this arm) made a (NULL, NULL) group look
+                // like a free slot again, so it vanished with its NULL aggregates.
+                if arr.is_null(row) {
+                    return u64::MAX;
+                }
                 // Fallback: use hash of ScalarValue
                 let val = extract_scalar(arr, row);
                 let mut hasher = std::collections::hash_map::DefaultHasher::new();
